@@ -110,6 +110,17 @@ let handle_src (w : Stdlib.String.t list) : Stdlib.String.t =
                       | SErr w -> "OVERFLOW " ^ coqstr w)
        | SErr w -> "ERR " ^ coqstr w)
   | ["loads"; c; pad; inp] -> loads_src (nat_of_int (int_of_string c)) (pad = "1") (unhex inp)
+  | ["hmac"; hb; hm; k; data] ->
+      sres_bytes (Model.src_hmac (nat_of_int (int_of_string hb)) (n_of_int (int_of_string hm)) (unhex k) (unhex data) O)
+  | ["cmph"; hb; hm; k; data; stored] ->
+      (match Model.src_cmphmac (nat_of_int (int_of_string hb)) (n_of_int (int_of_string hm)) (unhex k) (unhex data) O (unhex stored) with
+       | SOk b -> if b then "1" else "0" | SErr w -> "ERR " ^ coqstr w)
+  | ["ver"; t; k; f] ->
+      (match Model.src_verify (hbuf ()) (nat_of_int (int_of_string t)) (unhex f) (unhex k) with
+       | SOk c -> if int_of_n c = 0 then "OK -" else "FAIL " ^ string_of_int (int_of_n c)
+       | SErr w -> "ERR " ^ coqstr w)
+  | ["hdr"; t; cm; hm; k; seed] ->
+      sres_bytes (Model.src_header (hbuf ()) (nat_of_int (int_of_string t)) (n_of_int (int_of_string cm)) (n_of_int (int_of_string hm)) (unhex k) (unhex seed))
   | _ -> "?"
 
 let handle (w : Stdlib.String.t list) : Stdlib.String.t =
